@@ -406,6 +406,17 @@ def timeout? : Sexp → Option Nat
 
 def runBlocking (line : String) : String :=
   match Sexp.parse line with
+  | some (.list (.atom "blctx" :: api :: ctxs)) =>
+    -- one thread, a sequence of calling contexts: every call is judged by ITS context (`blockingPath` is a function
+    -- of the call's context alone); against a healthy receiver with room each one sends and flushes
+    match api? api, ctxs.mapM ctx? with
+    | some api, some cs =>
+      if api = .async ∨ cs.isEmpty ∨ cs.length > 6 ∨
+          ¬ cs.all (fun c => c = .plainThread ∨ c = .tokioMultiThreadNoDriversBlockOn ∨ c = .tokioCurrentThread) then "bad-op"
+      else
+        let toks := cs.map fun c => if pathPanics (blockingPath api c) c then "panic" else "send=ok,flush=true"
+        s!"{" ".intercalate toks}\tctxseq={cs.length}"
+    | _, _ => "bad-op"
   | some (.list [.atom "blseq", api, ctx]) =>
     match api? api, ctx? ctx with
     | some api, some ctx =>
